@@ -5,7 +5,7 @@
 (* format module's CellSrc.  Many traces per file; one verdict line per trace.*)
 EXTENDS Common, TraceCommon, Json, IOUtils
 
-CONSTANTS N, CB, P, MaxTail
+CONSTANTS N, CB, P, MaxTail, NGD, GTES
 VARIABLES img, view, last, tid, l, pos
 vars  == <<img, view, last>>
 tvars == <<vars, tid, l, pos>>
@@ -14,6 +14,7 @@ Vdi == INSTANCE Vdi
 Vhd == INSTANCE Vhd
 Hds == INSTANCE Hds
 Vhdx == INSTANCE Vhdx
+Vmdk == INSTANCE Vmdk
 
 Traces == ndJsonDeserialize(IOEnv.TRACE_FILE)
 T      == Traces[tid]
@@ -30,10 +31,17 @@ SetOf(s) == {s[x] : x \in 1..Len(s)}
 VhdxImg(j) == [n |-> j.n, cb |-> j.cb, size |-> j.size, parent |-> j.parent,
                bat |-> [b \in 0..j.n-1 |-> [st |-> j.st[b + 1], p |-> j.p[b + 1], bm |-> SetOf(j.bm[b + 1])]]]
 
+\* VMDK traces list entry kinds and positions per grain; "C" marks a compressed stored grain (stream-optimised)
+VmdkImg(j) == [class |-> j.class, gtes |-> j.gtes, cb |-> j.cb, cap |-> j.cap, parent |-> j.parent, gd |-> Fn0(j.gd),
+               gt |-> [g \in 0..Len(j.t)-1 |-> [t |-> IF j.t[g + 1] = "C" THEN "D" ELSE j.t[g + 1], p |-> j.p[g + 1]]]]
+VmdkSrc(j, q) == LET t == Vmdk!CellSrc(VmdkImg(j), q)
+                 IN IF t.k = "D" /\ j.t[(q \div j.cb) + 1] = "C" THEN Comp(t.c \div j.cb, t.c % j.cb) ELSE t
+
 Src(q) == CASE T.fmt = "vdi" -> Vdi!CellSrc(VdiImg(T.img), q)
             [] T.fmt = "vhd" -> Vhd!CellSrc(VhdImg(T.img), q)
             [] T.fmt = "hds" -> Hds!CellSrc(HdsImg(T.img), q)
             [] T.fmt = "vhdx" -> Vhdx!CellSrc(VhdxImg(T.img), q)
+            [] T.fmt = "vmdk" -> VmdkSrc(T.img, q)
 
 Ev == T.events[l]
 
